@@ -28,3 +28,6 @@ for _n, _what in ((2, "redis.call"), (4, "redis.pcall")):
 M("c18_db_arg_lua_bridge", ["C18"], "arg_flow", tier="quick",
   desc="LuaEngine::execute_unified_redis_command passes its db_index unchanged to LuaCommandAdapter::execute_lua_command",
   fn=r"::execute_unified_redis_command$", param="db_index", callee_params=["db", "db_index"])
+M("c18_select_index_unsigned", ["C18"], "reach_allow", tier="quick",
+  desc="Server::handle_select parses the database index as an unsigned integer (str::parse::<usize>), so that negative indexes are refused by the parser before any range test or cast; no signed parse is reachable",
+  fn=r"::handle_select$", deny=[r"parse::<i(8|16|32|64|128|size)>$"], must_reach=[r"parse::<usize>$", r"RespFrame::error"])
